@@ -263,3 +263,8 @@ def extra(cases, outs, model):
     return {"warmup_transitions": warm, "post_warmup_transitions": post,
             "interval_checked": sum(len(sel(c, o)[1]) for c, o in zip(cases, outs)),
             "multi_run_cases": sum(1 for c in cases if len(c["runs"]) >= 2)}
+
+
+def corrupt(model):
+    """interval bounds are encoded [sign, mantissa, exponent] x 2: shift every exponent by 3 (value x 8)"""
+    return [x + 3 if i % 3 == 2 else x for i, x in enumerate(model)]
